@@ -312,6 +312,11 @@ func c01dStageSpec(c *Ctx, name string, cases []*c01dCase) error {
 					st.Tag("known-" + id)
 					continue
 				}
+				if !c01dFactEmptyBody && w == "K" && strings.HasPrefix(eo, "!syntax") && (strings.Contains(out, ")}") || strings.HasSuffix(out, ")")) {
+					c.R.ExcludedKnown++
+					st.Tag("known-K-C01D-7")
+					continue
+				}
 				c.R.Add(h.Finding{Stage: name, Kind: "fail", What: "Lean semantics: the real output behaves differently from the input", Input: cs.src, Config: cfg + fmt.Sprint(" script=", c01dScripts[si]), Impl: out + "  => " + got, Model: in, Seed: c.Seed})
 			}
 		}
@@ -432,6 +437,14 @@ func c01dStageNode(c *Ctx, name string, cases []*c01dCase, rule string) error {
 			st.Tag("known-" + id)
 			continue
 		}
+		if !c01dFactEmptyBody && m.cfg == "KeepVarNames" && strings.Contains(r.Why, "output does not parse: Unexpected") &&
+			(strings.Contains(m.out, ")}") || strings.HasSuffix(m.out, ")")) {
+			// K-C01D-7: a var declaration that lost all its items is the only statement of a loop body: nothing is
+			// written for it (signature: names kept, the output ends a statement with `)` before `}` / the end)
+			c.R.ExcludedKnown++
+			st.Tag("known-K-C01D-7")
+			continue
+		}
 		if cs.known == "-" && !c01dFactWhile && m.cfg == "KeepVarNames" && strings.Contains(cs.src, "while(") &&
 			strings.Contains(r.Why, "has already been declared") {
 			// outside the Lean fragment there is no Lean-side guard for K-C01D-1: names kept, a while loop in the
@@ -489,7 +502,7 @@ func c01dKnownTrigger(cs *c01dCase, cfg string) string {
 var c01dFactOwnFunction bool
 
 // c01dFactLoops: endsInIf optimizes loop bodies first (K-C01D-6 cannot occur); c01dFactWhile: isShadowed knows while
-var c01dFactLoops, c01dFactWhile bool
+var c01dFactLoops, c01dFactWhile, c01dFactEmptyBody bool
 
 func c01dLoadFacts() error {
 	rep, err := h.Eval([]string{"model.c01d.facts"})
@@ -497,12 +510,13 @@ func c01dLoadFacts() error {
 		return err
 	}
 	b, ok, msg := h.DecodeReply(rep[0])
-	if !ok || len(b) != 4 {
+	if !ok || len(b) != 5 {
 		return fmt.Errorf("model.c01d.facts: %s %q", msg, b)
 	}
 	c01dFactOwnFunction = b[0] == '1'
 	c01dFactWhile = b[1] == '1'
 	c01dFactLoops = b[3] == '1'
+	c01dFactEmptyBody = b[4] == '1'
 	return nil
 }
 
